@@ -867,6 +867,18 @@ def run(res, tier, seed, replay):
                 with_macros = head + mac + host(h1, content, True) + host(h2, content, True)
                 inlined = head + host(h1, content, False) + host(h2, content, False)
                 twice.append((with_macros.encode(), inlined.encode()))
+    # a macro that holds a whole method (with its own Path / Query / Description) or a whole URL block, pasted under two hosts
+    def _ind(t, n):
+        return "".join(" " * n + l + "\n" for l in t.split("\n"))
+    meth = "GET\n  Path\n    {\n      \"id\": 1\n    }\n  Description\n    one item\n  200 any"
+    meth2 = "POST\n  Query\n    {\n      \"q\": 1\n    }\n  Request any\n  200 any"
+    for body, hosts_ in ((meth, ("URL /cats/{id}", "URL /dogs/{id}")), (meth2, ("URL /cats", "URL /dogs")), (meth + "\n" + meth2, ("URL /cats/{id}", "URL /dogs/{id}")),
+                         (meth, ("URL /shops/{shopId}/items/{id}", "URL /dogs/{id}"))):
+        wm = "JSIGHT 0.3\nMACRO @g\n(\n" + _ind(body, 2) + ")\n" + "".join(h + "\n  PASTE @g\n" for h in hosts_)
+        inl = "JSIGHT 0.3\n" + "".join(h + "\n" + _ind(body, 2) for h in hosts_)
+        twice.append((wm.encode(), inl.encode()))
+        wm2 = "JSIGHT 0.3\nMACRO @g\n(\n" + _ind(body, 2) + ")\nMACRO @h\n(\n  PASTE @g\n)\n" + "".join(h + "\n  PASTE @h\n" for h in hosts_)
+        twice.append((wm2.encode(), inl.encode()))
     o_tw = run_impl([P.run_line("out=sha", [("a.jst", d)]) for pair in twice for d in pair])
     res.count(len(o_tw))
     tw_dist = {"both accepted": 0, "both rejected": 0}
